@@ -560,7 +560,11 @@ func c18Cluster(r *h.Result, rng *h.Rng, tier string) error {
 		var cases []any
 		for _, m := range ddl.Modes {
 			cl := c18cNewCluster(def, 2)
-			_, cc := c18cStartReal(cl, m, def, 0, nil)
+			stt, cc := c18cStartReal(cl, m, def, 0, nil)
+			if stt != "done" {
+				r.Count("cluster-program:start-did-not-complete") // reported by cluster-clean; only a prefix was sent
+				continue
+			}
 			// group like c18cprog prints: createDb, then per updateScripts call boot + scripts
 			var sb strings.Builder
 			i := 0
